@@ -324,6 +324,9 @@ pub fn run(tier: Tier, shard: Shard, stats: &mut Stats) {
             }
         }
     }
+    // histories on a rate-limited target: cells painted after skipped draws (set_length, inc, println,
+    // suspend, finish ...) follow the current position and length
+    crate::c04s::run_bar(tier, shard, stats);
     stats.sample(json!({"template": "|{bar:7}|", "progress_chars": "#123-", "pos": 3, "len": 7}));
     stats.sample(json!({"template": "xx{wide_bar}", "terminal_width": 9, "progress_chars": "＃－", "pos": 6, "len": 7}));
 }
@@ -331,7 +334,7 @@ pub fn run(tier: Tier, shard: Shard, stats: &mut Stats) {
 pub fn meta(_tier: Tier) -> Meta {
     Meta {
         level: "exploration",
-        rule: "{bar:N} for N in 0..=64,100,255,1000,65535 x progress character sets of k=2..=10 clusters of width 1 and 2 (k in {2,3,10} for N>100) x every position 0..=len+1 for small lengths plus boundary positions for 2^24-1, 2^24, 2^24+1, 2^32, u64::MAX; for N <= 12 also with the style put together in the other orders (progress_chars before template, template replaced on a live bar's style); {wide_bar} first/last with 0..=6 other columns on terminals of 1..=40 columns; {wide_bar} next to an overflowing fixed-width field; a terminal resized between redraws (all width pairs 1..=14, standalone and as a MultiProgress member); cell-geometry laws with exact rational fill (relative tolerance 2^-21 for the f32 fraction); distinct = (N, c, k, filled, partial, length class); non-trivial = at least one filled or partial cell".into(),
+        rule: "{bar:N} for N in 0..=64,100,255,1000,65535 x progress character sets of k=2..=10 clusters of width 1 and 2 (k in {2,3,10} for N>100) x every position 0..=len+1 for small lengths plus boundary positions for 2^24-1, 2^24, 2^24+1, 2^32, u64::MAX; for N <= 12 also with the style put together in the other orders (progress_chars before template, template replaced on a live bar's style); {wide_bar} first/last with 0..=6 other columns on terminals of 1..=40 columns; {wide_bar} next to an overflowing fixed-width field; bar cells after every history of <= 4 (5) operations on a rate-limited standalone bar (skipped draws, println, suspend, length changes); a terminal resized between redraws (all width pairs 1..=14, standalone and as a MultiProgress member); cell-geometry laws with exact rational fill (relative tolerance 2^-21 for the f32 fraction); distinct = (N, c, k, filled, partial, length class); non-trivial = at least one filled or partial cell".into(),
         assumptions: vec!["with two progress characters the partial cell is indistinguishable from background, so the partial-cell law is judged for k >= 3".into()],
         bounds: json!({}),
         exhaustive: true,
@@ -339,6 +342,9 @@ pub fn meta(_tier: Tier) -> Meta {
 }
 
 pub fn replay(v: &Value) -> i32 {
+    if let Some(c) = crate::c04s::replay(v) {
+        return c;
+    }
     println!("case: {}\nrecorded: {}", v["history"], v["detail"]);
     1
 }
